@@ -40,7 +40,9 @@ def gen_program(rng, features=None, n_nodes=None, n_modules=None):
         nd = {"id": i, "name": ("f%d" if kind == "memento" else "h%d") % i, "module": mod, "kind": kind,
               "explicit": None, "salt": None, "const": 1, "nested": None, "setc": None, "tup": None, "fstr": None,
               "posdef": None, "kwdef": None, "globals": [], "calls": [], "recur": False, "nestkind": "lambda",
-              "deco": None}
+              "deco": None, "fparams": [], "builtin": None}
+        if rng.random() < F.get("p_builtin", 0.2):
+            nd["builtin"] = "abs"      # a builtin name the module may later shadow with its own definition
         if kind == "memento" and i != 0 and rng.random() < F.get("p_explicit", 0.15):
             nd["explicit"] = "v1"
         if kind == "memento" and nd["explicit"] is None and rng.random() < F.get("p_salt", 0.1):
@@ -63,12 +65,17 @@ def gen_program(rng, features=None, n_nodes=None, n_modules=None):
         for g in glob:
             if g["module"] >= mod and pkg[g["module"]] == pkg[mod] and rng.random() < 0.35:
                 nd["globals"].append(g["id"])
+        if pkg[mod] == 1:
+            # plain code of another package is invisible to the versions of this package's functions (by design):
+            # nothing in the second package refers to a name that an edit could shadow later
+            nd["builtin"] = None
         if pkg[mod] == 1 and kind == "plain":
             # a plain helper of the second package: code outside the caller's package is not tracked, so it is a
             # frozen leaf (no calls, no globals, never edited)
             nd["frozen"] = True
             nd["globals"] = []
             nd["recur"] = False
+            nd["builtin"] = None
         nodes.append(nd)
     # call edges: i -> j with j > i and module(j) >= module(i)
     for i, nd in enumerate(nodes):
@@ -86,12 +93,22 @@ def gen_program(rng, features=None, n_nodes=None, n_modules=None):
                 if tj["kind"] == "memento" and nd["explicit"] is None and r > 1 - F.get("p_hidden", 0.1):
                     form = "hidden"
                 nd["calls"].append({"to": j, "form": form})
+    # a memento function may receive another memento function as an argument and call it (legal), and may in
+    # addition reach the same function through a hidden dynamic call (legal only when it was passed)
+    for nd in nodes:
+        if nd["kind"] == "memento" and nd["explicit"] is None and rng.random() < F.get("p_fparam", 0.2):
+            cands = [t["id"] for t in nodes if t["id"] > nd["id"] and t["module"] >= nd["module"] and t["kind"] == "memento"]
+            if cands:
+                j = cands[rng.randrange(len(cands))]
+                nd["fparams"] = [j]
+                if not any(c["to"] == j for c in nd["calls"]) and rng.random() < 0.6:
+                    nd["calls"].append({"to": j, "form": "hidden"})
     # a nested scope may bind, as its own parameter / loop variable, the very name the outer body calls
     for nd in nodes:
         bare = [c["to"] for c in nd["calls"] if c["form"] == "bare"]
         if nd["nested"] is not None and bare and rng.random() < F.get("p_shadow", 0.25):
             nd["shadow"] = bare[rng.randrange(len(bare))]
-    prog = {"modules": mods, "pkg": pkg, "nodes": nodes, "globals": glob, "order": {}}
+    prog = {"modules": mods, "pkg": pkg, "nodes": nodes, "globals": glob, "order": {}, "bshadow": {}}
     for mi in range(n_modules):
         prog["order"][str(mi)] = default_order(prog, mi)
     return prog
@@ -116,6 +133,8 @@ def bump_global(g, n):
 def units_of(prog, mi):
     """Ordered unit ids of module mi: ('g', gid) | ('n', nid) | ('a', caller_nid, callee_nid)"""
     us = [("g", g["id"]) for g in prog["globals"] if g["module"] == mi]
+    if (prog.get("bshadow") or {}).get(str(mi)) is not None:
+        us.append(("b", mi))
     for nd in prog["nodes"]:
         if nd["module"] == mi:
             us.append(("n", nd["id"]))
@@ -211,6 +230,10 @@ def layout(prog, nid):
         lab.append("global:%d" % gid)
     for c in nd["calls"]:
         lab.append("call:%d:%s" % (c["to"], c["form"]))
+    for j in nd.get("fparams") or []:
+        lab.append("param:%d" % j)
+    if nd.get("builtin"):
+        lab.append("builtin")
     if nd["recur"]:
         lab.append("recur")
     return lab
@@ -225,6 +248,8 @@ def render_node(prog, nid, decorator="m.memento_function"):
     params = ["x"]
     if nd["posdef"] is not None:
         params.append("y=%d" % nd["posdef"])
+    for j in nd.get("fparams") or []:
+        params.append("p%d=None" % j)
     if nd["kwdef"] is not None:
         params.append("*, k=%d" % nd["kwdef"])
     lines = []
@@ -276,14 +301,24 @@ def render_node(prog, nid, decorator="m.memento_function"):
         items.append(g["name"] if g["module"] == nd["module"] else "%s.%s" % (mod_alias(g["module"]), g["name"]))
     for c in nd["calls"]:
         items.append(call_expr(prog, nd, c))
+    for j in nd.get("fparams") or []:
+        items.append("(p%d(x) if p%d is not None else None)" % (j, j))
+    if nd.get("builtin"):
+        items.append("abs(x)")
     if nd["recur"]:
         items.append("%s(x - 1)" % nd["name"])
     lines.append("    return [%s]" % ", ".join(items))
     return "\n".join(lines) + "\n"
 
 
+def render_bshadow(prog, mi):
+    return 'def abs(a):\n    return ["abs", a, %d]\n' % prog["bshadow"][str(mi)]
+
+
 def render_unit(prog, u):
     u = tuple(u)
+    if u[0] == "b":
+        return render_bshadow(prog, u[1])
     if u[0] == "g":
         return render_global(prog, u[1])
     if u[0] == "n":
@@ -324,7 +359,7 @@ def write_package(prog, srcdir, pkg=None, orders=None):
 
 # ----------------------------------------------------------------------------- reference semantics
 
-def evaluate(prog, nid, x, y=None, depth=0):
+def evaluate(prog, nid, x, y=None, depth=0, fnargs=None):
     """What an un-memoized execution returns (used for classification and for C14's expected
     outcome; the C01 oracle itself runs real Python)."""
     nd = prog["nodes"][nid]
@@ -348,6 +383,11 @@ def evaluate(prog, nid, x, y=None, depth=0):
         out.append(copy.deepcopy(prog["globals"][gid]["value"]))
     for c in nd["calls"]:
         out.append(evaluate(prog, c["to"], x, depth=depth + 1))
+    for j in nd.get("fparams") or []:
+        out.append(evaluate(prog, j, x, depth=depth + 1) if fnargs and j in fnargs else None)
+    if nd.get("builtin"):
+        sh = (prog.get("bshadow") or {}).get(str(nd["module"]))
+        out.append(["abs", x, sh] if sh is not None else abs(x))
     if nd["recur"]:
         out.append(evaluate(prog, nid, x - 1, depth=depth + 1))
     return out
@@ -403,27 +443,35 @@ def memento_edges(prog, root):
     return sorted(edges)
 
 
-def expected_outcome(prog, nid, x):
+def expected_outcome(prog, nid, x, fnargs=None):
     """'ude' if executing nid(x) un-memoized would hit a hidden call outside the closure of the nearest
-    auto-versioned memento frame, else 'value'."""
-    def walk(j, xx, frame, depth):
+    auto-versioned memento frame (and not reachable from that frame's own arguments), else 'value'."""
+    def walk(j, xx, frame, depth, outer):
+        # outer: still inside the outermost invocation (the only one that received function arguments)
         nd = prog["nodes"][j]
         if nd["kind"] == "memento":
             frame = j
+            if depth > 0:
+                outer = False
         if nd["recur"] and xx <= 0:
             return False
         for c in nd["calls"]:
             t = prog["nodes"][c["to"]]
             if t["kind"] == "memento" and frame is not None:
                 fr = prog["nodes"][frame]
-                if fr["explicit"] is None and c["to"] != frame and c["to"] not in closure_memento(prog, frame):
+                passed = bool(fnargs) and outer and c["to"] in fnargs
+                if fr["explicit"] is None and c["to"] != frame and c["to"] not in closure_memento(prog, frame) and not passed:
                     return True
-            if walk(c["to"], xx, frame, depth + 1):
+            if walk(c["to"], xx, frame, depth + 1, outer):
                 return True
-        if nd["recur"] and depth < 8 and walk(j, xx - 1, frame, depth + 1):
+        if outer and fnargs and j == nid:
+            for pj in nd.get("fparams") or []:
+                if pj in fnargs and walk(pj, xx, frame, depth + 1, outer):
+                    return True
+        if nd["recur"] and depth < 8 and walk(j, xx - 1, frame, depth + 1, outer):
             return True
         return False
-    return "ude" if walk(nid, x, None, 0) else "value"
+    return "ude" if walk(nid, x, None, 0, True) else "value"
 
 
 def classify(prog_now, nid, got, exp, depth=0):
@@ -444,6 +492,8 @@ def classify(prog_now, nid, got, exp, depth=0):
                 sub = classify(prog_now, int(to), a, b, depth + 1)
                 kind = prog_now["nodes"][int(to)]["kind"]
                 return "%s-%s.%s" % (form, "callee" if kind == "memento" else "helper", sub)
+            if la.startswith("param:") and depth < 6:
+                return "param-callee." + str(classify(prog_now, int(la.split(":")[1]), a, b, depth + 1))
             if la == "recur":
                 return "recur." + str(classify(prog_now, nid, a, b, depth + 1))
             if la.startswith("global:"):
@@ -455,18 +505,25 @@ def classify(prog_now, nid, got, exp, depth=0):
 # ----------------------------------------------------------------------------- edits
 
 EDIT_KINDS = ["const", "nested", "setc", "tup", "fstr", "posdef", "kwdef", "global", "add_edge", "del_edge",
-              "retarget", "swap_kind", "salt", "explicit_body", "insert_helper", "toggle_recur"]
+              "retarget", "swap_kind", "salt", "explicit_body", "insert_helper", "toggle_recur", "define_builtin"]
 
 
 def gen_edit(rng, prog, counter, weights=None):
     """Returns an edit dict (absolute values, so that edits commute with dropping others) or None."""
     nodes = prog["nodes"]
     for _ in range(20):
-        kind = rng.choices(EDIT_KINDS, weights or [4, 2, 2, 1, 1, 3, 3, 3, 1.5, 1.5, 1, 1, 0.5, 1, 0.7, 0.3])[0]
+        w = list(weights or [4, 2, 2, 1, 1, 3, 3, 3, 1.5, 1.5, 1, 1, 0.5, 1, 0.7, 0.3])
+        w = (w + [1.2] * len(EDIT_KINDS))[:len(EDIT_KINDS)]
+        kind = rng.choices(EDIT_KINDS, w)[0]
         nd = nodes[rng.randrange(len(nodes))]
         if nd.get("frozen") or (kind in ("swap_kind", "insert_helper", "toggle_recur") and (prog.get("pkg") or [0])[min(nd["module"], len(prog.get("pkg") or [0]) - 1)]):
             continue
         v = counter + 2
+        if kind == "define_builtin":
+            users = [n for n in nodes if n.get("builtin") and not n.get("frozen")]
+            if not users:
+                continue
+            return {"kind": "define_builtin", "module": users[rng.randrange(len(users))]["module"], "value": v}
         if kind in ("const",):
             return {"kind": kind, "node": nd["id"], "value": v}
         if kind in ("nested", "setc", "tup", "fstr", "posdef", "kwdef"):
@@ -551,6 +608,9 @@ def apply_edit(prog, e):
     if k in ("const", "nested", "setc", "tup", "fstr", "posdef", "kwdef", "salt"):
         nodes[e["node"]][k] = e["value"]
         touched.add(("n", e["node"]))
+    elif k == "define_builtin":
+        p.setdefault("bshadow", {})[str(e["module"])] = e["value"]
+        touched.add(("b", e["module"]))
     elif k == "global":
         g = p["globals"][e["gid"]]
         if e["how"] == "rebind":
@@ -594,6 +654,12 @@ def apply_edit(prog, e):
             if nd["kind"] == "plain":
                 nd["explicit"] = None
                 nd["salt"] = None
+                nd["fparams"] = []
+                # a plain function cannot be passed as an argument to a memento function
+                for a in nodes:
+                    if nd["id"] in (a.get("fparams") or []):
+                        a["fparams"] = [j for j in a["fparams"] if j != nd["id"]]
+                        touched.add(("n", a["id"]))
                 # hidden edges need a memento target
                 for a in nodes:
                     for c in a["calls"]:
@@ -614,7 +680,7 @@ def apply_edit(prog, e):
                 h = {"id": nid, "name": "h%d" % nid, "module": a["module"], "kind": "plain", "explicit": None, "salt": None,
                      "const": e["value"], "nested": None, "setc": None, "tup": None, "fstr": None, "posdef": None,
                      "kwdef": None, "globals": [], "calls": [{"to": e["to"], "form": "bare" if t["module"] == a["module"] else "attr"}],
-                     "recur": False, "nestkind": "lambda", "deco": None}
+                     "recur": False, "nestkind": "lambda", "deco": None, "fparams": [], "builtin": None}
                 nodes.append(h)
                 c["to"] = nid
                 c["form"] = "bare"
@@ -623,7 +689,7 @@ def apply_edit(prog, e):
                 break
     # aliases of touched nodes have to be re-bound (user discipline, see DESIGN 4/C13)
     for u in list(touched):
-        if u[0] == "n":
+        if u[0] == "n" and u[1] < len(nodes):
             for a in nodes:
                 for c in a["calls"]:
                     if c["form"] == "alias" and c["to"] == u[1]:
@@ -651,6 +717,10 @@ def explicit_bumps(prog, touched_nodes, counter):
 
 def global_users(prog, gid):
     return [nd["id"] for nd in prog["nodes"] if gid in nd["globals"]]
+
+
+def builtin_users(prog, mi):
+    return [nd["id"] for nd in prog["nodes"] if nd.get("builtin") and nd["module"] == mi]
 
 
 def dumps(prog):
